@@ -738,6 +738,7 @@ class SmtLibParser(object):
         # pylint: disable=unused-argument
         self.consume_opening(tokens, "expression")
         newvals = {}
+        early = set()
         current = "("
         self.consume_opening(tokens, "expression")
         while current != ")":
@@ -746,10 +747,21 @@ class SmtLibParser(object):
                                        tokens.pos_info)
             vname = self.parse_atom(tokens, "expression")
             expr = cast(Union[str, FNode], assert_not_none(self.get_expression(tokens)))
+            # SMT-LIB let is parallel: the bound terms are read in the
+            # enclosing scope. (Extension kept for backward compatibility:
+            # a name with no meaning in the enclosing scope is visible to
+            # the following bindings of the same let.)
+            if vname not in newvals and self.cache.get(vname) is None:
+                self.cache.bind(vname, expr)
+                early.add(vname)
             newvals[vname] = expr
-            self.cache.bind(vname, expr)
             self.consume_closing(tokens, "expression")
             current = tokens.consume()
+
+        for vname, expr in newvals.items():
+            if vname in early:
+                self.cache.unbind(vname)
+            self.cache.bind(vname, expr)
 
         stack[-1].append(self._exit_let)
         stack[-1].append(newvals.keys())
